@@ -293,13 +293,35 @@ def _cond_edges(body, call_term):
                 return None
             # in the Continue block: val = (cf as Continue).0 ; switch on it (maybe negated)
             x = cont[0]
+            chain_ = []
             for _ in range(4):
                 t2 = body.term(x)
+                chain_.append(x)
                 if t2["k"] == "switch":
                     o = R.origin(body, t2["op"], carriers={"branch": 0})
                     neg = False
                     if o[0] == "rv" and o[1].get("k") == "unop" and o[1].get("op") == "Not":
                         neg = True
+                    pl_ = op_place(t2["op"])
+                    for _k in range(4):  # through temporaries that copy the flag
+                        d_ = body.single_def(pl_[0]) if pl_ is not None and not pl_[1] else None
+                        if d_ is not None and d_[1] != R.TERM and d_[2].get("k") == "use" and op_place(d_[2].get("op")) is not None and not op_place(d_[2]["op"])[1] and len(body.defs_of(op_place(d_[2]["op"])[0])) > 1:
+                            pl_ = op_place(d_[2]["op"])
+                        else:
+                            break
+                    if pl_ is not None and not pl_[1] and len(body.defs_of(pl_[0])) > 1:
+                        # the tested flag is given a value on several ways (`let done = match kind { While(e) => !cond, .. }`):
+                        # what it holds on *this* way is what was assigned since the condition was evaluated
+                        mine = [s_ for y in chain_ for s_ in body.stmts(y) if "lhs" in s_ and s_["lhs"][0] == pl_[0] and not s_["lhs"][1]]
+                        if len(mine) != 1:
+                            return None
+                        rv_ = mine[0]["rv"]
+                        if rv_.get("k") == "unop" and rv_.get("op") == "Not":
+                            neg = True
+                        elif rv_.get("k") == "use" and op_place(rv_.get("op")) is not None:
+                            neg = False
+                        else:
+                            return None
                     tt, ft = R.switch_targets_bool(t2)
                     return (ft, tt) if neg else (tt, ft)
                 if t2["k"] == "goto":
